@@ -1,7 +1,7 @@
 /-
 Model of the NSGA-III part of `deap/tools/emo.py`:
-`selNSGA3` (492-573), `associate_to_niche` (620-638), `niching` (640-674),
-`uniform_reference_points` (677-698), and the memory update of `selNSGA3WithMemory` (463-489 with
+`selNSGA3` (492-573), `associate_to_niche` (623-641), `niching` (643-677),
+`uniform_reference_points` (680-701), and the memory update of `selNSGA3WithMemory` (463-489 with
 546-551).
 
 Import-free apart from `Core.Scalar` (the real-valued association is polymorphic in `RealLike`).
@@ -27,7 +27,7 @@ deriving DecidableEq, Repr
 /-- `a[i] = v` on an array seen as a function of the index. -/
 def upd {β : Type} (f : Nat → β) (i : Nat) (v : β) : Nat → β := fun x => if x = i then v else f x
 
-/-! ### niching (emo.py:640-674) -/
+/-! ### niching (emo.py:643-677) -/
 
 /-- loop state: `selected` (positions in the last front), `available`, `niche_counts`. -/
 structure NState where
@@ -40,11 +40,11 @@ abbrev Tape := List (List Nat)
 section Niching
 variable {α : Type} [LT α] [DecidableLT α]
 
-/-- `numpy.flatnonzero(numpy.logical_and(niches == niche, available))` (line 659). -/
+/-- `numpy.flatnonzero(numpy.logical_and(niches == niche, available))` (line 662). -/
 def members (L : Nat) (niches : Nat → Nat) (avail : Nat → Bool) (j : Nat) : List Nat :=
   (List.range L).filter (fun p => niches p == j && avail p)
 
-/-- indices where `available_niches` is `True` (lines 648-649). -/
+/-- indices where `available_niches` is `True` (lines 651-652). -/
 def availNiches (L nref : Nat) (niches : Nat → Nat) (avail : Nat → Bool) : List Nat :=
   (List.range nref).filter (fun j => (List.range L).any (fun p => avail p && niches p == j))
 
@@ -53,7 +53,7 @@ def argminFirst (d : Nat → α) : List Nat → Option Nat
   | [] => none
   | p :: ps => some (ps.foldl (fun best q => if d q < d best then q else best) p)
 
-/-- body of `for niche in selected_niches` (lines 657-672). -/
+/-- body of `for niche in selected_niches` (lines 660-675). -/
 def pick (L : Nat) (niches : Nat → Nat) (dist : Nat → α) (st : NState) (niche : Nat)
     (tape : Tape) : Except Err (NState × Tape) :=
   let mem := members L niches st.avail niche
@@ -74,11 +74,11 @@ def pickAll (L : Nat) (niches : Nat → Nat) (dist : Nat → α) :
     | .error e => .error e
     | .ok (st', t') => pickAll L niches dist js st' t'
 
-/-- one pass of the `while` body (lines 644-672). -/
+/-- one pass of the `while` body (lines 647-675). -/
 def round (L k nref : Nat) (niches : Nat → Nat) (dist : Nat → α) (st : NState) (tape : Tape) :
     Except Err (NState × Tape) :=
   let n := k - st.selected.length
-  -- line 649: `available_niches[...] = True` raises IndexError for a niche number ≥ len(niche_counts)
+  -- line 652: `available_niches[...] = True` raises IndexError for a niche number ≥ len(niche_counts)
   if (List.range L).any (fun p => st.avail p && decide (nref ≤ niches p)) then .error .raised else
   let an := availNiches L nref niches st.avail
   match (an.map st.counts).min? with
@@ -134,7 +134,7 @@ def selNSGA3 (fronts : List (List Nat)) (k : Nat) (niches : List Nat) (dist : Li
 
 end Niching
 
-/-! ### associate_to_niche (emo.py:620-638) -/
+/-! ### associate_to_niche (emo.py:623-641) -/
 
 section Associate
 variable {α : Type} [RealLike α]
@@ -142,7 +142,7 @@ variable {α : Type} [RealLike α]
 /-- `numpy.finfo(float).eps` -/
 def eps : α := RealLike.ofRatio 1 (2 ^ 52)
 
-/-- line 624: `(f - best) / (intercepts - best + eps)`, one row -/
+/-- line 627: `(f - best) / (intercepts - best + eps)`, one row -/
 def normalise (best intercepts f : List α) : List α :=
   List.zipWith (fun fb ib => fb / ib)
     (List.zipWith (· - ·) f best)
@@ -153,7 +153,7 @@ def norm (r : List α) : α := RealLike.sqrt (RealLike.sum (r.map (fun x => x * 
 
 def dot (a b : List α) : α := RealLike.sum (List.zipWith (· * ·) a b)
 
-/-- lines 630-632 for one individual and one reference point: the coded perpendicular distance
+/-- lines 633-635 for one individual and one reference point: the coded perpendicular distance
 `‖ (fn·r/‖r‖) · r/‖r‖ − fn ‖`. -/
 def perpDist (fn r : List α) : α :=
   let nr := norm r
@@ -182,7 +182,7 @@ def associate (fits refs : List (List α)) (best intercepts : List α) : List (N
 
 end Associate
 
-/-! ### uniform_reference_points (emo.py:677-698) -/
+/-! ### uniform_reference_points (emo.py:680-701) -/
 
 /-- `gen_refs_recursive(ref, nobj, left, total, depth)` with `rem = nobj - 1 - depth`. -/
 def genRefs (total : Nat) : (rem : Nat) → (ref : List Rat) → (left depth : Nat) → List (List Rat)
@@ -218,7 +218,7 @@ def colMax (rows : List (List α)) (mem : List α) : List α :=
 end Memory
 
 /-! ### normalisation: ideal / worst point, `find_extreme_points` (577-593), `find_intercepts`
-(596-617)
+(596-620)
 
 Polymorphic in `RealLike`.  `numpy.linalg.solve` is a *parameter* `solve A b` (`none` =
 `LinAlgError`); the code itself tests the contract `A·x = b` with `numpy.allclose`. -/
@@ -295,7 +295,9 @@ def findIntercepts (solve : List (List α) → List α → Option (List α))
   | none => worst                                                      -- lines 604-605
   | some x =>
     if x.any isZero then frontWorst                                    -- lines 607-608
-    else if acceptIntercepts A x best worst then x.map (fun v => RealLike.ofNat 1 / v)
+    else if acceptIntercepts A x best worst then
+      -- lines 616-618 (F21): the hyperplane intercepts are measured from the ideal point
+      List.zipWith (· + ·) (x.map (fun v => RealLike.ofNat 1 / v)) best
     else frontWorst                                                    -- lines 610-615
 
 /-- lines 546-557 of `selNSGA3`: `(best_point, worst_point, extreme_points, intercepts)`. -/
